@@ -227,7 +227,7 @@ func runC19(c *Ctx) {
 	// ---- prefix / element table
 	{
 		c.Analysed(fnName(ts))
-		p0, pfx := ssa.Value(ts.Params[0]), ssa.Value(ts.Params[1])
+		p0, pfx := ssa.Value(param(ts, 0)), ssa.Value(param(ts, 1))
 		cls := func(e *PPA, st *State, rv RV) string {
 			rv = e.Resolve(st, rv)
 			switch v := rv.V.(type) {
@@ -395,7 +395,7 @@ func runC19(c *Ctx) {
 		okLookup := false
 		if sorted {
 			instrs(sv, func(in ssa.Instruction) {
-				if lk, ok := in.(*ssa.Lookup); ok && lk.X == ssa.Value(sv.Params[0]) && instrDominates(sortInstr, lk) {
+				if lk, ok := in.(*ssa.Lookup); ok && lk.X == ssa.Value(param(sv, 0)) && instrDominates(sortInstr, lk) {
 					okLookup = true
 				}
 			})
